@@ -19,7 +19,7 @@ for mp in sorted(glob.glob("/verif/seeded/C*/m*/meta.json"), key=lambda p: (p.sp
         before, now = "no", "not caught: " + d["out_of_reach"]
     else:
         first = d.get("detected_by_first_version_of_check")
-        before = "yes" if first else ("n/a (extended first)" if first is None else "no → extended")
+        before = "yes" if first else ("extended before the first run" if first is None else "no → extended")
         now = ", ".join(sorted(set(classes))[:3]) + ("" if by == [pid] or not by else f" ({', '.join(sorted(set(by)))})")
     rows.append(f"| {pid}/{m} | {d.get('change','')} | {d.get('trigger','')} | {before} | {now} |")
 print("\n".join(rows))
